@@ -1,3 +1,4 @@
 import DDProps.Tables
 import DDProps.C02
 import DDProps.C01
+import DDProps.C06
